@@ -1015,11 +1015,12 @@ func (p *Parser) parseRegexpLiteral() ast.Expression {
 
 			if val[i] == ')' {
 
+				// Everything up to the ")" - taken as a whole, so
+				// that multi-byte characters survive.
+				flags = val[:i]
 				val = val[i+1:]
 				closed = true
 				break
-			} else {
-				flags += string(val[i])
 			}
 
 			i++
